@@ -166,6 +166,16 @@ class ByteSizedLoop:
         ctx.ghost.setdefault("abstract_lists", {})[id(elements)] = k
 
 
+class StaleValue:
+    """what a loop-carried local holds at the head of a later iteration: something an earlier message left behind"""
+
+    def __init__(self, name):
+        self.name = name
+
+    def __repr__(self):
+        return f"<left over from an earlier message in '{self.name}'>"
+
+
 class StreamLoop:
     """process_command_response_stream: `while True:` command then response"""
 
@@ -177,7 +187,21 @@ class StreamLoop:
         c = yield from I.eval(node.test, frame)
         if c is not True:
             raise Unsupported("StreamLoop: loop condition is not the constant True")
-        # arbitrary iteration (the loop has no normal exit; the pump ends the stream)
+        # arbitrary iteration (the loop has no normal exit; the pump ends the stream): a local that was set before the loop and is
+        # assigned inside it is loop-carried - in a later iteration it holds whatever an earlier message left there
+        import ast as _ast
+
+        assigned = set()
+        for n in _ast.walk(_ast.Module(body=node.body, type_ignores=[])):
+            if isinstance(n, (_ast.Assign, _ast.AugAssign, _ast.AnnAssign, _ast.NamedExpr)):
+                for t in (n.targets if isinstance(n, _ast.Assign) else [n.target]):
+                    for nm in _ast.walk(t):
+                        if isinstance(nm, _ast.Name):
+                            assigned.add(nm.id)
+        carried = sorted(a for a in assigned if a in frame.locals)
+        for name in carried:
+            if ctx.fork([z3.BoolVal(True), z3.BoolVal(True)], f"carried:{name}") == 1:
+                frame.locals[name] = StaleValue(name)
         ctx.ghost["stream_iteration_start"] = len(ctx.trace)
         try:
             yield from I.exec_block(node.body, frame)
